@@ -898,7 +898,7 @@ def rule_diag(repo, rep):
     rep.add(Rn, 'mmc._BaseMMC._fit_diag:obj', 'derived' if ok else 'refuted',
             site(f, n), '' if ok else 'objective value is used without '
             'assert_all_finite')
-  rep.floor('objective evaluations in _fit_diag', len(objs), 2)
+  rep.floor('objective evaluations in _fit_diag', len(objs), 1)
 
 
 def rule_no_write_through_ravel(repo, rep, modules=('mmc',)):
